@@ -182,6 +182,25 @@ def ord_resolve_annotate(repo, tier="quick"):
                           reason=WHY_RESOLVE[("annotate", "names")])) if ok else
          obs.append(ob_fail("ORD.resolve-annotate", fi, ph.sites["names"][0][0], construct="annotate before names", instance="annotate<names",
                             reason=reason + "; " + WHY_RESOLVE[("annotate", "names")])))
+    # atom naming: on every all-atom path, applied to (fine graph, coarse graph)
+    aa_flt = flag_filter(fi.cfg, {flag: True})
+    if not ph.sites["names"] or not on_every_path(fi, ph.nodes("names"), aa_flt):
+        obs.append(ob_fail("ORD.resolve-annotate", fi, construct="set_atom_names_atomistic on every all-atom path", instance="names:every-path",
+                           reason="an all-atom result is returned without element+index atom names"))
+    else:
+        obs.append(ob_ok("ORD.resolve-annotate", fi, ph.sites["names"][0][0], construct="set_atom_names_atomistic on every all-atom path", instance="names:every-path",
+                         reason="all-atom results carry element+index atom names"))
+    for call, nid in ph.sites["names"]:
+        a_m, a_c = call_arg(call, 0, "molecule"), call_arg(call, 1, "meta_graph")
+        tm = fi.flow.canon(a_m, nid) if a_m is not None else None
+        tc = fi.flow.canon(a_c, nid) if a_c is not None else None
+        curm = fi.flow.canon(ast.parse("self.molecule", mode="eval").body, nid)
+        curc = fi.flow.canon(ast.parse("self.meta_graph", mode="eval").body, nid)
+        ok = tm == curm and (tc is None or tc == curc)
+        (obs.append(ob_ok("ORD.resolve-annotate", fi, call, construct="set_atom_names_atomistic(self.molecule, self.meta_graph)", instance="names:args",
+                          reason="names are set on the fine graph, per coarse node of the coarse graph")) if ok else
+         obs.append(ob_fail("ORD.resolve-annotate", fi, call, construct="set_atom_names_atomistic(%s, %s)" % (show(tm) if tm else "", show(tc) if tc else ""),
+                            instance="names:args", reason="atom names are not set on (fine graph, coarse graph)")))
     # arguments: annotate_fragments(<coarse graph>, <fine graph>) with the fine graph being the sorted one
     for call, nid in ph.sites["annotate"]:
         fl = fi.flow
@@ -392,10 +411,53 @@ def prov_h_inherit(repo, tier="quick"):
          obs.append(ob_fail("PROV.h-inherit", fi, st, construct="graph.nodes[h][attr] = %s" % show(val), instance="copy", reason=why)))
         gs = guards_of(fi, n.id)
         texts = [(ast.unparse(t), pol) for t, pol, _ in gs]
-        has_h = any(("'H'" in t or '"H"' in t) for t, pol in texts if pol)
-        (obs.append(ob_ok("PROV.h-inherit", fi, st, construct="guard: element == 'H'", instance="guard", reason="copy applies to hydrogens"))
-         if has_h else
-         obs.append(ob_fail("PROV.h-inherit", fi, st, construct="guards: %s" % texts, instance="guard", reason="copy loop is not restricted to hydrogen atoms")))
+        # truth table of the controlling guards over (element, single_h_frag): the copy happens exactly for hydrogens that are not
+        # stand-alone hydrogen fragments
+        from ..absint import Evaluator, Unsupported, MISSING
+        table = {}
+        undec = None
+        for element in ("H", "C"):
+            for single in (True, False, MISSING):
+                def hook(ev, call, env, single=single):
+                    if isinstance(call.func, ast.Attribute) and call.func.attr == "get" and call.args and \
+                            isinstance(call.args[0], ast.Constant) and call.args[0].value == "single_h_frag":
+                        if single is MISSING:
+                            return True, (ev.eval(call.args[1], env) if len(call.args) > 1 else None)
+                        return True, single
+                    return False, None
+                val = True
+                for t, pol, gid in gs:
+                    env = {}
+                    for sub in ast.walk(t):
+                        if isinstance(sub, ast.Name) and sub.id in fl.locals:
+                            ct = fl.canon(sub, gid)
+                            if ct[0] == "sub" and ct[2] == ("const", 1) and ct[1][0] == "iter":
+                                env[sub.id] = element
+                            na2 = node_attr(ct)
+                            if na2 and na2[2] == ("const", "element"):
+                                env[sub.id] = element
+                    try:
+                        ev = Evaluator(call_hook=hook)
+                        r = ev.truth(ev.eval(t, env))
+                    except Unsupported as err:
+                        undec = str(err)
+                        r = True
+                    val = val and (r if pol else not r)
+                table[(element, single)] = val
+        want = {(e_, s_): (e_ == "H" and s_ is not True) for e_ in ("H", "C") for s_ in (True, False, MISSING)}
+        if undec:
+            has_h = any(("'H'" in t or '"H"' in t) for t, pol in texts if pol)
+            (obs.append(ob_ok("PROV.h-inherit", fi, st, construct="guard: element == 'H'", instance="guard", reason="copy applies to hydrogens (guard outside the evaluator: %s)" % undec))
+             if has_h else
+             obs.append(ob_fail("PROV.h-inherit", fi, st, construct="guards: %s" % texts, instance="guard", reason="copy loop is not restricted to hydrogen atoms")))
+        elif table == want:
+            obs.append(ob_ok("PROV.h-inherit", fi, st, construct="guard: element == 'H' and not single_h_frag", instance="guard",
+                             reason="truth table over (element, single_h_frag present/absent): the copy applies exactly to hydrogens bonded to an atom"))
+        else:
+            diff = ["%s/%s: %s" % (k[0], k[1], v) for k, v in table.items() if v != want[k]]
+            obs.append(ob_fail("PROV.h-inherit", fi, st, construct="guards: %s" % texts, instance="guard",
+                               reason="the inheritance runs for the wrong atoms (element/single_h_frag: copies?) %s; heavy atoms would be overwritten from a neighbour or "
+                                      "stand-alone hydrogens looked up without one" % diff))
         loops = enclosing_loops(fi, n.id)
         outer = loops[-1] if loops else None
         okl = False
@@ -456,10 +518,18 @@ def ord_sample_finalise(repo, tier="quick"):
                      "sort": ["graph_utils:sort_nodes_by_attr"], "names": ["graph_utils:set_atom_names_atomistic"]})
     for lab in ("grow", "hydrogens", "sort"):
         ph.require(lab)
-    flags = {flag_of_call(fi, nid) for _, nid in ph.sites["hydrogens"]}
-    if len(flags) != 1 or None in flags:
-        raise AnalysisError("cannot identify the all-atom flag guarding rebuild_h_atoms in sample()", fi.where())
-    flag = flags.pop()
+    # the resolution flag: the instance attribute that __init__ fills from its `all_atom` parameter
+    ini = repo.function("sample:MoleculeSampler.__init__")
+    flag = None
+    for n in ini.cfg.nodes:
+        if n.kind == "stmt" and isinstance(n.ast, ast.Assign) and isinstance(n.ast.targets[0], ast.Attribute) and \
+                isinstance(n.ast.value, ast.Name) and n.ast.value.id == "all_atom" and "all_atom" in ini.params:
+            flag = ast.unparse(n.ast.targets[0])
+    if flag is None:
+        flags = {flag_of_call(fi, nid) for _, nid in ph.sites["hydrogens"]}
+        if len(flags) != 1 or None in flags:
+            raise AnalysisError("cannot identify the all-atom flag guarding rebuild_h_atoms in sample()", fi.where())
+        flag = flags.pop()
     aa = flag_filter(fi.cfg, {flag: True})
     cg = flag_filter(fi.cfg, {flag: False})
     why = {("grow", "hydrogens"): "hydrogens are counted from the final connectivity of the grown molecule",
@@ -469,7 +539,16 @@ def ord_sample_finalise(repo, tier="quick"):
     obs = chain("ORD.sample-finalise", fi, ph, ["grow", "hydrogens", "sort"] + (["names"] if ph.sites["names"] else []), aa, why, "all-atom:",
                 loop_phases=("grow",))
     obs += chain("ORD.sample-finalise", fi, ph, ["grow", "sort"], cg, why, "coarse:", loop_phases=("grow",))
-    for lab, flt, mode in (("hydrogens", aa, "all-atom"), ("sort", aa, "all-atom"), ("sort", cg, "coarse")):
+    # hydrogens are not added to coarse molecules
+    from ..cfg import flag_filter as _ff
+    reach_cg = {fi.cfg.entry} | fi.cfg.reachable_from(fi.cfg.entry, edge_filter=cg)
+    hyd_cg = [nid for nid in ph.nodes("hydrogens") if nid in reach_cg]
+    (obs.append(ob_fail("ORD.sample-finalise", fi, fi.cfg.nodes[hyd_cg[0]].ast, construct="rebuild_h_atoms reachable with %s false" % flag, instance="coarse:no-hydrogens",
+                        reason="coarse-grained beads have no valence to fill; pysmiles fails or adds atoms to a coarse molecule")) if hyd_cg else
+     obs.append(ob_ok("ORD.sample-finalise", fi, construct="rebuild_h_atoms only with %s true" % flag, instance="coarse:no-hydrogens",
+                      reason="hydrogens are added in all-atom mode only")))
+    checks = [("hydrogens", aa, "all-atom"), ("sort", aa, "all-atom"), ("sort", cg, "coarse")]
+    for lab, flt, mode in checks:
         ok = on_every_path(fi, ph.nodes(lab), flt)
         (obs.append(ob_ok("ORD.sample-finalise", fi, construct="%s on every %s path" % (lab, mode), instance="%s:every-path:%s" % (mode, lab),
                           reason="every path passes it")) if ok else
@@ -539,4 +618,19 @@ def ord_compute_mass(repo, tier="quick"):
         okp, reason = precedes(fi, hnodes, {loops[-1].id})
         (obs.append(ob_ok("ORD.compute-mass", fi, n.ast, construct="rebuild before sum", instance="order", reason="implicit hydrogens are part of the mass")) if okp else
          obs.append(ob_fail("ORD.compute-mass", fi, n.ast, construct="rebuild before sum", instance="order", reason=reason + "; implicit hydrogens would be missing from the mass")))
+    # the accumulator starts at zero and is what the function returns
+    al = aug_like(n.ast)
+    var = al[0] if al and isinstance(al[0], str) else (al[0].id if al and isinstance(al[0], ast.Name) else None)
+    if var is not None:
+        inits = [d for d in fl.reaching(var, loops[-1].id if loops else n.id) if d.node != n.id]
+        zero = bool(inits) and all(d.kind == "assign" and d.value is not None and not d.path and
+                                   isinstance(d.value, ast.Constant) and d.value.value == 0 and not isinstance(d.value.value, bool) for d in inits)
+        (obs.append(ob_ok("ORD.compute-mass", fi, n.ast, construct="%s = 0 before the sum" % var, instance="init", reason="the sum starts at zero")) if zero else
+         obs.append(ob_fail("ORD.compute-mass", fi, n.ast, construct="%s starts as %s" % (var, ", ".join(ast.unparse(d.value) if d.value is not None else d.kind for d in inits) or "<unbound>"),
+                            instance="init", reason="the mass does not start at zero: every fragment mass is off by a constant, so the stop rule compares the wrong total")))
+        rets = [x for x in fi.cfg.nodes if x.kind == "stmt" and isinstance(x.ast, ast.Return)]
+        good = bool(rets) and all(isinstance(x.ast.value, ast.Name) and x.ast.value.id == var for x in rets)
+        (obs.append(ob_ok("ORD.compute-mass", fi, rets[0].ast if rets else n.ast, construct="return %s" % var, instance="return", reason="the sum is returned unchanged")) if good else
+         obs.append(ob_fail("ORD.compute-mass", fi, rets[0].ast if rets else n.ast, construct="; ".join(ast.unparse(x.ast) for x in rets) or "no return", instance="return",
+                            reason="the function does not return the plain sum of atomic masses")))
     return obs
